@@ -197,6 +197,19 @@ def run_validate(ctx, nscen, thorough):
     return dist['scenarios']
 
 
+def text_cases(out):
+    """the plain report of `test`, split at the `Test Case #n` lines; the numbering itself is dropped"""
+    blocks, cur = [], None
+    for line in out.decode('utf-8', 'replace').splitlines():
+        if line.startswith('Test Case #'):
+            cur = []
+            blocks.append(cur)
+        elif cur is not None:
+            if line.strip():
+                cur.append(line.rstrip())
+    return blocks
+
+
 def run_test_cases(ctx, n):
     """the cases of one test file vs each case run alone"""
     rng = random.Random(ctx.seed * 41 + 13)
@@ -216,6 +229,13 @@ def run_test_cases(ctx, n):
         for i in range(len(cases)):
             jobs.append({'args': ['test', '-r', 'r.guard', '-t', 'one%d/t.yaml' % i, '-o', 'json'], 'cwd': d})
             meta.append((k, i))
+        # the plain-text and the verbose reports (a different reporter): case by case
+        for flag in ([], ['-v']):
+            jobs.append({'args': ['test', '-r', 'r.guard', '-t', 'all/t.yaml'] + flag, 'cwd': d})
+            meta.append((k, ('text', tuple(flag), 'all')))
+            for i in range(len(cases)):
+                jobs.append({'args': ['test', '-r', 'r.guard', '-t', 'one%d/t.yaml' % i] + flag, 'cwd': d})
+                meta.append((k, ('text', tuple(flag), i)))
     res = e2e.run_many(jobs)
     by = {}
     for m, r in zip(meta, res):
@@ -239,6 +259,16 @@ def run_test_cases(ctx, n):
         want = 7 if any(c['failed_rules'] for c in ones) else 0
         if by[k]['all'][0] != want:
             ctx.failing('test exits %s, the cases alone give %d' % (by[k]['all'][0], want), info, found=True)
+        for flag in ((), ('-v',)):
+            together = text_cases(by[k][('text', flag, 'all')][1])
+            alone = []
+            for i in range(len(sc['cases'])):
+                alone += text_cases(by[k][('text', flag, i)][1])
+            if together != alone:
+                ctx.failing('test %s: the text report of the cases of one file differs from the cases reported alone' % ' '.join(flag),
+                            dict(info, together=together, alone=alone, flags=list(flag)), found=True)
+            if by[k][('text', flag, 'all')][0] != want:
+                ctx.failing('test %s exits %s, the cases alone give %d' % (' '.join(flag), by[k][('text', flag, 'all')][0], want), dict(info, flags=list(flag)), found=True)
     ctx.coverage['test_files_compared'] = ok
     ctx.coverage['evaluations'] += ok
     return ok
